@@ -1,5 +1,6 @@
 import PallasVerif.Streams.P2PInit
 import PallasVerif.Model.P2PNet
+import PallasVerif.Model.P2PDomain
 /-! stream `p2p_sched` (C28): the initiator model behind an abstract connection per peer with a
   specification-conformant responder (`Model/P2PNet.lean`).
 
@@ -76,6 +77,7 @@ structure S where
   y : Option Sys := none
   dead : Bool := false
   ids : List Nat := []
+  dom : Bool := true      -- every step so far satisfied `stepOKb` (the domain of `initiator_conformant_delayed`)
 
 def annotOf : Sched → String
   | .ev e => annotEcho e
@@ -88,18 +90,18 @@ def stepS (σ : S) (toks : List String) : S × String :=
     match Tok.nat? a, Tok.nat? b, Tok.nat? c, Tok.nat? d with
     | some a, some b, some c, some d =>
       let y := Sys.init { maxPeers := a, maxWarm := b, maxHot := c, maxErr := d }
-      ({ σ with y := some y }, "ok " ++ showSys σ.ids y [])
+      ({ σ with y := some y, dom := true }, "ok " ++ showSys σ.ids y [] ++ " dom1")
     | _, _, _, _ => (σ, "bad-op")
   | ["confirmall"] =>
     match σ.y with
     | some y => match drainAll .confirm unconfCount σ.ids y with
-      | some y' => ({ σ with y := some y' }, "ok " ++ showSys σ.ids y' [])
+      | some y' => ({ σ with y := some y' }, "ok " ++ showSys σ.ids y' [] ++ (if σ.dom then " dom1" else " dom0"))
       | none => ({ σ with dead := true }, "panic")
     | none => (σ, "bad-op")
   | ["arriveall"] =>
     match σ.y with
     | some y => match drainAll .arrive toRespCount σ.ids y with
-      | some y' => ({ σ with y := some y' }, "ok " ++ showSys σ.ids y' [])
+      | some y' => ({ σ with y := some y' }, "ok " ++ showSys σ.ids y' [] ++ (if σ.dom then " dom1" else " dom0"))
       | none => ({ σ with dead := true }, "panic")
     | none => (σ, "bad-op")
   | _ =>
@@ -120,7 +122,8 @@ def stepS (σ : S) (toks : List String) : S × String :=
           | .deliver p _ => (match y.links p with | .up l => (if l.toInit.isEmpty then [] else y'.st.out) | _ => [])
           | .drop p | .fail p => (match y.links p with | .down => [] | _ => y'.st.out)
           | _ => []) else []
-        ({ σ with y := some y', ids := ids }, "ok " ++ annotOf a ++ showSys ids y' outs)
+        let dom := σ.dom && stepOKb y a
+        ({ σ with y := some y', ids := ids, dom := dom }, "ok " ++ annotOf a ++ showSys ids y' outs ++ (if dom then " dom1" else " dom0"))
       | none => ({ σ with dead := true }, "panic")
     | _, _ => (σ, "bad-op")
 
